@@ -9,7 +9,7 @@ def add(pid, level, text, note, technique, design, engine):
     BUILT[pid] = dict(level=level, text=text, note=note, technique=technique, design=design, engine=engine)
 
 add("C01", "exploration",
-    "Seeded operation histories (random, walker with step co-prime to the capacity, boundary amounts) on real mmap-backed streams of 6 element types and 1-8 pages, through the raw buffer and through the stream pair; after every operation the read window, window lengths and free counts are compared with an executable queue model of unique sample ids; over-large commit/consume must be refused; non-dividing element sizes must be refused. Decides the property on the executions produced (10^5 ops quick, 6*10^7 thorough incl. the complete offset sweep for one-page u32; release and debug builds, and in the thorough tier the same histories under AddressSanitizer).",
+    "Seeded operation histories (random, walker with step co-prime to the capacity, boundary amounts) on real mmap-backed streams of 6 element types and 1-8 pages, through the raw buffer and through the stream pair; after every operation the read window, window lengths and free counts are compared with an executable queue model of unique sample ids; over-large commit/consume must be refused; non-dividing element sizes must be refused. Decides the property on the executions produced (10^5 ops quick, 6*10^7 thorough incl. the complete offset sweep for one-page u32; release and debug builds, and in the thorough tier the same histories under AddressSanitizer). Scripted histories on rings of 8, 16 and 32 MiB (u8, u32): the write window is all of the free space, the read window all that was committed, 200 random probes per round, a commit of window+1 is refused.",
     "Trusts the harness's queue model and the hooks being passive. Single thread, one live window per side (the documented protocol). Concurrency is C03.",
     "runtime monitoring: reference-model oracle over generated operation histories (+ AddressSanitizer build in the thorough tier)", "3/C01", "ring-history")
 add("C02", "exploration",
@@ -34,11 +34,11 @@ add("C06", "exploration",
     "Known finding C06|Graph::run|returned-before-quiescence|final-pass-had-data-moving-non-Again-call is listed in known_findings.json: runs that hit it are not judged further. Any other signature is a violation.",
     "runtime monitoring: quiescence probe at a hook + differential oracle vs sequential reference", "3/C06", "graph-programs")
 add("C07", "fault_enumeration",
-    "Chains of 1-5 blocks behind finite and infinite sources on both runners. Cancellation is injected (i) from an outside thread after a seeded delay, (ii) from the hook callback at the k-th yield event of whichever thread reaches it (k swept), (iii) from inside a block's work(); probes count work() entries that begin after cancel() returned (bound 1 on Graph, 2 on MTGraph), run() must return (stuck detector), blocks dropped and thread count back to baseline. A failing block at every chain position failing on call k in {1,2,5,50}: run() under catch_unwind must return Err carrying the injected message. A sixth kind triggers the token before run() is entered; a third of the cancellation cases contain a Tee whose second output is held unread by the harness (an application-side stream end), and after cancel() a parked block thread that keeps waking up (40 wake-ups by the kernel's counter) without any block being called again is reported.",
+    "Chains of 1-5 blocks behind finite and infinite sources on both runners. Cancellation is injected (i) from an outside thread after a seeded delay, (ii) from the hook callback at the k-th yield event of whichever thread reaches it (k swept), (iii) from inside a block's work(); probes count work() entries that begin after cancel() returned (bound 1 on Graph, 2 on MTGraph), run() must return (stuck detector), blocks dropped and thread count back to baseline. A failing block at every chain position failing on call k in {1,2,5,50}: run() under catch_unwind must return Err carrying the injected message. A sixth kind triggers the token before run() is entered; a third of the cancellation cases contain a Tee whose second output is held unread by the harness (an application-side stream end), and after cancel() a parked block thread that keeps waking up (40 wake-ups by the kernel's counter) without any block being called again is reported. Graphs of one to three blocks that all fail on call k (no block ends cleanly) must return the block's error too.",
     "The swept fault points are the yield hooks (every stream operation entry and every peer-liveness read) plus block-internal and external cancellation; points between them are reached only by timing.",
     "runtime monitoring with fault injection: cancellation at swept hook points, failing block at every position", "3/C07", "graph-programs")
 add("C08", "exploration",
-    "Every stream-processing block of the library (42 catalogue entries incl. all sync blocks, Skip, Delay, RationalResampler, FIR/FFT filters, Hilbert, AU codec, RtlSdrDecode, SymbolSync/ZeroCrossing with and without clock output, deframers, StreamToPdu, VecToStream, ToText, FftStream, CMA, WPCR) is run twice on the same seeded parameters and input: one-shot on default streams and under a seeded adversarial drip-feed schedule on 1-4 page streams with the harness as both neighbours, which in a third of the scheduled calls also act inside the call (drain an output / feed an input at the stream operations' yield points, as concurrently running neighbours do under MTGraph); outputs must be bit-identical, every intermediate drain a prefix, and work() must never unwind. Decides chunking independence on the executions produced. The quick tier also runs a quarter of its budget under the debug build (debug assertions of the stream API).",
+    "Every stream-processing block of the library (42 catalogue entries incl. all sync blocks, Skip, Delay, RationalResampler, FIR/FFT filters, Hilbert, AU codec, RtlSdrDecode, SymbolSync/ZeroCrossing with and without clock output, deframers, StreamToPdu, VecToStream, ToText, FftStream, CMA, WPCR) is run twice on the same seeded parameters and input: one-shot on default streams and under a seeded adversarial drip-feed schedule on 1-4 page streams with the harness as both neighbours, which in a third of the scheduled calls also act inside the call (drain an output / feed an input at the stream operations' yield points, as concurrently running neighbours do under MTGraph); outputs must be bit-identical, every intermediate drain a prefix, and work() must never unwind. Decides chunking independence on the executions produced. The quick tier also runs a quarter of its budget under the debug build (debug assertions of the stream API). One case in sixty is long (10-25 capacities of the small stream, untagged), so that the one-shot reference run on default-size streams sees windows of 10^5 elements.",
     "Reference = the same implementation run one-shot (a defect that is chunking-independent is C10/C11's business). Floats are compared bitwise. Hooks must be passive.",
     "runtime monitoring: differential oracle (drip-fed vs one-shot run of the real block)", "3/C08", "drip-feed")
 add("C09", "exploration",
@@ -62,7 +62,7 @@ add("C14", "exploration",
     "i32/u32 streams are exercised through Sample only (the harness's stream ports carry u8,u32,f32,Complex). Durability is page-cache level. Loop-back TCP delivers each small write as one read result.",
     "runtime monitoring: round-trip oracles with harness-controlled read segmentation", "3/C14", "formats")
 add("C16", "exploration",
-    "VectorSource, FileSource, SigMFSource (recording and archive; the builder's repeat/sample_rate/ignore_type_error setters called in six orders) x data lengths 0,1,cap-1,cap,cap+1 and random up to 3 stream capacities x repeat in {0,1,2,3,infinite} x seeded drain schedules (none, 1, 1..100, all) on 1-2 page streams, so that repetitions are emitted in several pieces. Oracle: output = data repeated exactly r times; the EOF verdict is never returned before everything was emitted and comes within 2 further calls that had output space; an infinite repeat never returns EOF in 3000 calls; VectorSource marker tags (start, repeat=k, first) once per repetition on its first sample. Repeat API: random call sequences of again/done/count on finite(0..4) and infinite against a 10-line model of the documentation, no unwind.",
+    "VectorSource, FileSource, SigMFSource (recording and archive; the builder's repeat/sample_rate/ignore_type_error setters called in six orders; a fifth of the archives carry the data member's size in a pax extended header) x data lengths 0,1,cap-1,cap,cap+1 and random up to 3 stream capacities x repeat in {0,1,2,3,infinite} x seeded drain schedules (none, 1, 1..100, all) on 1-2 page streams, so that repetitions are emitted in several pieces. Oracle: output = data repeated exactly r times; the EOF verdict is never returned before everything was emitted and comes within 2 further calls that had output space; an infinite repeat never returns EOF in 3000 calls; VectorSource marker tags (start, repeat=k, first) once per repetition on its first sample. Repeat API: random call sequences of again/done/count on finite(0..4) and infinite against a 10-line model of the documentation, no unwind.",
     "For empty data both EOF and silence are accepted for an infinite repeat. Files hold whole samples only.",
     "runtime monitoring: reference-model oracle over source x repeat x drain-schedule cases", "3/C16", "sources")
 add("C19", "exploration",
@@ -74,7 +74,7 @@ add("C15", "exploration",
     "A worker killed by SIGSEGV/SIGABRT/SIGBUS is reported as a violation by the driver; time-outs and other exits are inconclusive. The descrambler is fed {0,1} only (it documents bit input); Il2pDeframer gets arbitrary bytes as well.",
     "runtime monitoring: catch_unwind/spin oracle over structure-aware and exhaustive small inputs, AddressSanitizer build", "3/C15", "robustness")
 add("C17", "fault_enumeration",
-    "Open modes: all 30 combinations of {Create, Overwrite, Append} x {absent, empty, non-empty, directory, unwritable} x {FileSink, NoCopyFileSink}, each executed in a child process running as uid 65534 (root ignores mode bits), compared with the documented table (open succeeds/fails; resulting content new / old+new / unchanged). Crash points: a re-executed child streams unique samples (FileSink<u32>) or records (NoCopyFileSink<String>) through a one-page stream from a feeder thread while its main thread loops work() and, after every return, reports the cumulative count consumed by returned calls (from hook events) with one write(2) to a pipe; the parent sends SIGKILL after a seeded number of reports plus a seeded delay (96 kills quick, 3200 thorough), then reads the last complete report and the file: the file must be a prefix of the serialised stream and hold at least the acknowledged count. Failing and slow devices: a sink on /dev/full (every write fails with ENOSPC) must return without having consumed anything, a sink whose write the kernel cuts short (file size limit reached inside the write, SIGXFSZ ignored) must not have consumed more than the file holds, two sinks appending alternately to one file must leave every piece in call order, and a sink on a FIFO that accepts one pipe buffer and then stalls must not, while its work() call is blocked, have consumed more input than the device accepted (consumption is watched from the upstream side of the stream by a second thread).",
+    "Open modes: all 30 combinations of {Create, Overwrite, Append} x {absent, empty, non-empty, directory, unwritable} x {FileSink, NoCopyFileSink}, each executed in a child process running as uid 65534 (root ignores mode bits), compared with the documented table (open succeeds/fails; resulting content new / old+new / unchanged). Crash points: a re-executed child streams unique samples (FileSink<u32>) or records (NoCopyFileSink<String>) through a one-page stream from a feeder thread while its main thread loops work() and, after every return, reports the cumulative count consumed by returned calls (from hook events) with one write(2) to a pipe; the parent sends SIGKILL after a seeded number of reports plus a seeded delay (96 kills quick, 3200 thorough), then reads the last complete report and the file: the file must be a prefix of the serialised stream and hold at least the acknowledged count. Failing and slow devices: a sink on /dev/full (every write fails with ENOSPC) must return without having consumed anything, a sink whose write the kernel cuts short (file size limit reached inside the write, SIGXFSZ ignored) must not have consumed more than the file holds, two sinks appending alternately to one file must leave every piece in call order, and a sink on a FIFO that accepts one pipe buffer and then stalls must not, while its work() call is blocked, have consumed more input than the device accepted (consumption is watched from the upstream side of the stream by a second thread). A FileSink<u32> on a default-size stream takes backlogs of 1 to 10^6 samples; whenever the stream is empty the file must equal the samples committed so far.",
     "In the SIGKILL runs acknowledgement is taken when work() returns. The device scenarios look inside the call: consume() is what upstream sees as the acknowledgement, and a sink that consumes before its write has finished fails the unambiguous half as well (write error returned with samples consumed and in no file). Page-cache durability only.",
     "runtime monitoring with fault injection: SIGKILL at seeded points of a child process, prefix/acknowledgement oracle on the file", "3/C17", "filesink")
 add("C18", "fault_enumeration",
